@@ -170,7 +170,16 @@ func c03Scenario(c *choice.Ctx, rep *report.R, queries []c03Query) {
 		up = c03Ups[c.Choose(len(c03Ups), "upstream")]
 		wantRcode, _ = c03Expect(q.m, rule, up)
 	}
-	desc := fmt.Sprintf("seam=%s rule=%s query[%s] upstream=%s", seam.name, rule, q.desc, up)
+	// the listener's idle time-out (a configuration option) may be shorter than the time a slow upstream needs: a connection with a
+	// query in flight is not idle
+	idle := 30 * time.Second
+	if fwd && (up == "silence" || up == "reply-late-5.9s") && c.Choose(2, "listener-idle-timeout") == 1 {
+		idle = 3 * time.Second
+	}
+	savedIdle := seamIdle
+	seamIdle = idle
+	defer func() { seamIdle = savedIdle }()
+	desc := fmt.Sprintf("seam=%s rule=%s query[%s] upstream=%s listener idle_timeout=%v", seam.name, rule, q.desc, up, idle)
 	fail := func(sig, msg string) {
 		rep.Violate("C03:"+seam.name+":"+sig, msg+"\n  "+desc+fmt.Sprintf("\n  query wire %x", q.m.Encode(false)), map[string]any{"Choices": c.Choices()})
 	}
